@@ -282,7 +282,23 @@ CLAIMED["C25"] = dict(
     note=_API_NOTE + "Regions of other properties' open findings (degenerate axes, empty chunks in arg reductions / scans / n-d min-max, bincount minlength) are excluded by "
          "model variables; three zero-size-chunk gaps found here are listed known findings. Outside: pipelines > 3 operations, linear algebra, fft, random, masked arrays.",
     design_ref="DESIGN.md sec. 9a")
-for _k in ("C22", "C25", "C27", "C35", "C40", "C46"):
+CLAIMED["C32"] = dict(
+    text="da.percentile through the public API and merge_percentiles called directly with hand-made summaries, on solver-enumerated inputs: every value of small float / int / "
+         "+-inf arrays, every chunking (zero-size chunks anywhere), a table of 16 q vectors (scalars, repeats, with/without 0 and 100, dyadic and non-dyadic), the five methods: "
+         "every result lies in [min, max], is non-decreasing in q, q=0 gives the min and q=100 the max (exact where counts are exact in binary64), one chunk equals np.percentile, "
+         "lazy shape/dtype equal the computed ones; da.nanpercentile equals np.nanpercentile (1e-12) for every chunking, axis, NaN pattern and method of small 1-d/2-d/3-d arrays.",
+    note=_API_NOTE + "Everything goes through NumPy float code: no symbolic claim. Three regions are listed known findings (inexact q rounding, declared dtype of integer input, "
+         "empty blocks in nanquantile). Outside: accuracy of the approximation, tdigest, NaN data in percentile.", design_ref="DESIGN.md sec. 9a")
+CLAIMED["C33"] = dict(
+    text="dask.array.ma against numpy.ma on solver-enumerated inputs through the public API: construction (from_array of masked arrays, masked_array with dask/NumPy/list/scalar "
+         "masks, fill values), masked_where / equal / greater / less / inside / outside / invalid / values, getdata / getmaskarray / filled / set_fill_value, elementwise operations "
+         "between masked and plain arrays with different chunkings, reductions (sum, prod, min, max, mean, var, std, any, all, count; axis, keepdims, split_every) incl. all-masked "
+         "chunks and results, average, nonzero, concatenate / stack / rechunk / slicing / reshape / map_blocks, assignment of np.ma.masked: mask, data at unmasked positions, dtype, "
+         "shape and explicitly given fill values are compared for every mask of arrays with <= 4-6 elements and every chunking incl. zero-size chunks.",
+    note=_API_NOTE + "numpy.ma is C/Python code outside dask: no symbolic claim. Six regions are listed known findings (average(returned=True), all-masked weights, comparisons on "
+         "empty masked blocks, fill value lost by multi-chunk fancy indexing, assignment through a dask boolean key). Outside: hard masks, structured dtypes, default fill values.",
+    design_ref="DESIGN.md sec. 9a")
+for _k in ("C22", "C25", "C27", "C32", "C33", "C35", "C40", "C46"):
     CLAIMED[_k]["technique"] = ("bounded symbolic execution of the real Python kernels with z3 (symx) plus solver-enumerated, exhausted input spaces through the public API against "
                                 "NumPy/pandas, per-path native replay")
 
